@@ -40,11 +40,11 @@ def tok(x):
     return x.k if isinstance(x, Token) else -7
 
 
-def make_handler(hid, ret, rec):
+def make_handler(hid, ret, rec, w=False):
     def handler(data):
         rec.invoked.append(hid)
         rec.seen.append(tok(data.in_data))
-        if ret != 0:
+        if ret != 0 or w:
             data.out_data = Token(hid)
         rec.outs.append(tok(data.out_data))
         rec.rets.append(ret)
@@ -76,7 +76,9 @@ class Scenario:
     def register(self, ev, langs, ret, how):
         self.count += 1
         hid = self.count
-        h = make_handler(hid, ret, self.rec)
+        w = ret == 100          # 100: declines (returns UNPROCESSED) after having written out_data
+        ret = 0 if w else ret
+        h = make_handler(hid, ret, self.rec, w)
         real_langs = [LANG[x] for x in langs]
         if how == "set":
             arg = set(real_langs)
@@ -85,7 +87,7 @@ class Scenario:
         else:
             arg = real_langs
         self.em.register(KINDS[ev], h, arg)
-        return {"op": "register", "id": hid, "ev": ev, "langs": list(langs), "ret": ret, "how": how,
+        return {"op": "register", "id": hid, "ev": ev, "langs": list(langs), "ret": ret, "w": w, "how": how,
                 "lists": registry_view(self.em)}
 
     def notify(self, ev, lang):
@@ -100,15 +102,45 @@ class Scenario:
 def build(regs):
     s = Scenario()
     for r in regs:
-        s.register(*r)
+        if r[0] == "notify":
+            s.notify(r[1], r[2])
+        else:
+            s.register(*r)
     return s
+
+
+def interleaved(forest, alphabet, depth, evs, langs=("py", "js")):
+    """All sequences of register and notify calls up to `depth` on one evolving manager."""
+    counter = [0]
+
+    def rec(parent, hist, d):
+        ops = [("notify", e, lg) for e in evs for lg in langs] + [(e, ls, r) for (e, ls, r) in alphabet]
+        for op in ops:
+            s = build(hist)
+            if op[0] == "notify":
+                ev = s.notify(op[1], op[2])
+                item = op
+            else:
+                counter[0] += 1
+                how = how_for(op[1], counter[0])
+                ev = s.register(op[0], op[1], op[2], how)
+                item = (op[0], op[1], op[2], how)
+            k = forest.add(parent, ev, d)
+            if d < depth:
+                rec(k, hist + [item], d + 1)
+            else:
+                forest.leaves += 1
+            if d == 1:
+                forest.maybe_flush()
+
+    rec(0, [], 1)
 
 
 LANGSETS_ALL = [("py",), ("js",), ("%",), ("py", "js"), ("js", "%"), ("py", "%"), ()]
 LANGSETS_4 = [("py",), ("js",), ("%",), ("py", "js")]
-RETS_ALL = [-1] + list(range(16))
-RETS_6 = [-1, 0, 1, 2, 3, 12]
-RETS_4 = [-1, 0, 1, 3]
+RETS_ALL = [-1, 100] + list(range(16))
+RETS_6 = [-1, 0, 100, 1, 2, 12]
+RETS_4 = [-1, 100, 1, 3]
 
 
 def how_for(langs, i):
@@ -196,6 +228,12 @@ def main():
         family("full alphabet", a_full, 2, [1, 2])
         family("4 language sets x 6 returns x 2 kinds", a_mid, 3, [1, 2])
         family("4 language sets x 4 returns x 1 kind", a_small, 4, [1])
+    a_tiny = list(itertools.product([1], [("py",), ("%",), ("py", "js")], [100, 1, 2]))   # 9
+    before = forest.total
+    interleaved(forest, a_tiny, 4 if tier == "quick" else 5, [1])
+    forest.flush()
+    fam.append({"family": "interleaved register/notify on one manager, 3 language sets x {declines-after-writing, SUCCESS, STOP}",
+                "ops<=": 4 if tier == "quick" else 5, "alphabet": len(a_tiny) + 2, "exhaustive": True, "nodes": forest.total - before})
     before = forest.total
     n_chain, length = (200, 12) if tier == "quick" else (3000, 16)
     chains(forest, n_chain, length, rng)
@@ -212,7 +250,7 @@ if __name__ == "__main__":
         evs = []
         for h in doc["history"]:
             if h["op"] == "register":
-                evs.append(s.register(h["ev"], tuple(h["langs"]), h["ret"], h.get("how", "list")))
+                evs.append(s.register(h["ev"], tuple(h["langs"]), 100 if h.get("w") else h["ret"], h.get("how", "list")))
             else:
                 evs.append(s.notify(h["ev"], h["lang"]))
         print(json.dumps(evs))
